@@ -173,6 +173,62 @@ def r_layout(ctx: RuleCtx, col: Collector):
     dedupe(col)
 
 
+@rule("R-BASE-COPY", floor=1)
+def r_base_copy(ctx: RuleCtx, col: Collector):
+    """OverhangFilter: the base layer (and every layer the sweep does not reach) of the printed density is the input
+    itself: the array the response returns starts, in every call and on every path, as a fresh copy of this call's input.
+    A work buffer kept on the module and filled from the input only when it is (re)allocated carries the base layer of an
+    earlier design into the result."""
+    m = ctx.model
+    oh = m.public_class("OverhangFilter")
+    f = m.resolve_method(oh, "_response")
+    params = f.pos_params()
+    if not params:
+        raise AnalysisError("OverhangFilter._response: input parameter not found")
+    x = params[0]
+    selfn_ = m.self_name(f)
+    rets = [n for n in ast.walk(f.node) if isinstance(n, ast.Return) and (isinstance(n.value, ast.Name) or (
+        isinstance(n.value, ast.Attribute) and isinstance(n.value.value, ast.Name) and n.value.value.id == selfn_))]
+    if not rets:
+        raise AnalysisError("OverhangFilter._response: returned array not recognised")
+    cfg = ctx.flow.cfg(f)
+    for r in rets:
+        name = norm(r.value)          # a local, or an attribute of the module that the method hands out
+        defs = [n for n in ast.walk(f.node) if isinstance(n, ast.Assign) and len(n.targets) == 1 and norm(n.targets[0]) == name]
+        if not defs:
+            raise AnalysisError(f"OverhangFilter._response: definition of the returned array '{name}' not found")
+
+        def from_input(v: ast.AST) -> Optional[bool]:
+            """True: fresh copy of the input; False: recognised as something else that persists; None: unknown"""
+            t = norm(v)
+            if t in (f"{x}.copy()", f"np.copy({x})", f"np.array({x})", f"np.array({x},copy=True)", f"{x}.astype({x}.dtype)", f"{x}+0", f"1*{x}", f"{x}*1"):
+                return True
+            if isinstance(v, ast.Attribute) and isinstance(v.value, ast.Name) and v.value.id == m.self_name(f):
+                return False
+            if isinstance(v, ast.Name) and v.id == x:
+                return False
+            return None
+        verdicts = [(d, from_input(d.value)) for d in defs]
+        construct = f"OverhangFilter._response: returned array '{name}' starts as a copy of the input"
+        if any(v is None for _, v in verdicts):
+            raise AnalysisError(f"OverhangFilter._response: initialisation '{stmt_key([d for d, v in verdicts if v is None][0])}' of the "
+                                f"returned array not recognised")
+        good = [cfg.node_of(d) for d, v in verdicts if v]
+        badd = [d for d, v in verdicts if v is False]
+        rn = cfg.node_of(r)
+        if badd:
+            col.bad(where_of(f), f.rel, line_of(badd[0]), construct,
+                    f"'{stmt_key(badd[0])}' makes the result {'the input array itself' if norm(badd[0].value) == x else 'an array kept on the module'}: "
+                    f"the layers the sweep does not write (the base layer) are not this call's input "
+                    f"{'and the result aliases it' if norm(badd[0].value) == x else 'but whatever an earlier call left there'}")
+        elif good and all(g is not None for g in good) and rn is not None and cfg.must_pass(cfg.entry, rn, good):
+            col.ok(where_of(f), f.rel, line_of(defs[0]), construct, stmt_key(defs[0]))
+        else:
+            col.bad(where_of(f), f.rel, line_of(r), construct,
+                    f"'{name}' is filled from the input on some paths only ('{stmt_key(defs[0])}' is conditional): on the others the "
+                    f"layers the sweep does not write (the base layer) still hold what an earlier call left there")
+
+
 @rule("R-BLOCK-AXIS", floor=1)
 def r_block_axis(ctx: RuleCtx, col: Collector):
     """write_to_vti accepts block-vectors in either orientation: which axis holds the per-entity data is *searched*
